@@ -76,6 +76,10 @@ def programs(tier: str):
     b = BOUNDS[tier]
     s2 = scripts(b["two_tasks_L"])
     s2p = scripts(b["two_tasks_L"], with_prepared=True)
+    if b["two_tasks_L"] >= 3:
+        # length-3 scripts without the shared-update op (it is covered up to length 2)
+        s2 = [sc for sc in s2 if len(sc) <= 2 or 5 not in sc]
+        s2p = [sc for sc in s2p if len(sc) <= 2 or 5 not in sc]
     for root in s2:
         for child in s2p:
             if not root and not child:
